@@ -59,7 +59,9 @@ def build(spec, idx):
         for nm, required, init, lit in fields:
             kw = {"init": init, "type": (Literal[tuple(lit)] if lit else int)}
             if not required:
-                kw["default"] = (lit[0] if lit else 0)
+                dv_ = (lit[0] if lit else 0)
+                # a third of the defaults are factories (attrs.Factory / dataclasses default_factory): still "has a default"
+                kw["default"] = attrs.Factory(lambda dv_=dv_: dv_) if (idx + ord(nm[0])) % 3 == 0 else dv_
             elif not init:
                 pass
             d[nm] = attrs.field(**kw)
@@ -78,7 +80,11 @@ def build(spec, idx):
     for nm, required, init, lit in fields:
         kw = {"init": init}
         if not required:
-            kw["default"] = (lit[0] if lit else 0)
+            dv_ = (lit[0] if lit else 0)
+            if (idx + ord(nm[0])) % 3 == 0:
+                kw["default_factory"] = (lambda dv_=dv_: dv_)
+            else:
+                kw["default"] = dv_
             if init:
                 seen = True
         elif init and seen:
@@ -137,23 +143,31 @@ def outcome_signature(seed, n_unions):
             if created:
                 has_noinit = any(not f[2] for _, fs in specs for f in fs)
                 for ci, xs in enumerate(insts):
-                    for x in xs:
-                        payload = conv.unstructure(x)
-                        try:
-                            r = rec.structure(payload, u)
-                            chosen = classes.index(r[1]) if isinstance(r, tuple) and r[1] in classes else -1
-                        except Exception as e:
-                            res.append((ci, None, type(e).__name__))
-                            continue
-                        same = True
-                        if full or not has_noinit:
-                            # the real round trip (BaseConverter cannot round-trip init=False attributes at all: outside C12)
+                    for xi, x in enumerate(xs):
+                        for variant in ("full", "minimal"):
+                            payload = conv.unstructure(x)
+                            if variant == "minimal":
+                                # the same instance as a payload that leaves out the keys of attributes with defaults (what omit_if_default
+                                # writes, what any client may send): a valid payload of the member, only when the instance holds the defaults
+                                opt = [f[0] for f in specs[ci][1] if not f[1] and f[2] and f[0] in payload and payload[f[0]] == (f[3][0] if f[3] else 0)]
+                                if not opt:
+                                    continue
+                                payload = {k: val for k, val in payload.items() if k not in opt}
                             try:
-                                back = conv.structure(payload, u)
-                                same = type(back) is type(x) and all(getattr(back, f[0]) == getattr(x, f[0]) for f in specs[ci][1] if f[2])
+                                r = rec.structure(payload, u)
+                                chosen = classes.index(r[1]) if isinstance(r, tuple) and r[1] in classes else -1
                             except Exception as e:
-                                same = f"real round trip raised {type(e).__name__}"
-                        res.append((ci, chosen, same))
+                                res.append((ci, xi, variant, None, type(e).__name__))
+                                continue
+                            same = True
+                            if full or not has_noinit:
+                                # the real round trip (BaseConverter cannot round-trip init=False attributes at all: outside C12)
+                                try:
+                                    back = conv.structure(payload, u)
+                                    same = type(back) is type(x) and all(getattr(back, f[0]) == getattr(x, f[0]) for f in specs[ci][1] if f[2])
+                                except Exception as e:
+                                    same = f"real round trip raised {type(e).__name__}"
+                            res.append((ci, xi, variant, chosen, same))
             per_order.append((order, created, res))
         sig.append({"specs": specs, "full": full, "with_none": with_none, "orders": per_order,
                     "payload_keys": [[sorted(((Converter if full else BaseConverter)().unstructure(x)).keys()) for x in xs] for xs in insts],
@@ -167,7 +181,7 @@ def check_c12(v: Verdict, t1_summary, n_unions, hash_seeds):
     sig = outcome_signature(v.seed * 7919 + 12, n_unions)
     cases, meta = [], []
     hist = {"unions": 0, "orders": 0, "creation_ok": 0, "creation_refused": 0, "roundtrips": 0, "wrong_class": 0, "literal_discriminator_unions": 0,
-            "with_init_false": 0, "with_none": 0, "f23_hits": 0, "hash_seeds_compared": 0}
+            "with_init_false": 0, "with_none": 0, "f23_hits": 0, "hash_seeds_compared": 0, "minimal_payloads": 0}
     c12_rename_battery(v, hist)
     for ui, u in enumerate(sig):
         specs = u["specs"]
@@ -193,13 +207,15 @@ def check_c12(v: Verdict, t1_summary, n_unions, hash_seeds):
                     "converter": "Converter" if u["full"] else "BaseConverter"}
             meta.append({**desc, "check": "creation", "observed": created})
             v.count(repr((ui, order)), len(order) >= 2)
-            k = 0
-            for (ci, got, eq) in res:
+            for (ci, xi, variant, got, eq) in res:
                 hist["roundtrips"] += 1
-                xi = k % 2
-                k += 1
-                keys = u["payload_keys"][ci][xi]
-                vals = u["payload_vals"][ci][xi]
+                hist["minimal_payloads"] += variant == "minimal"
+                vals = dict(u["payload_vals"][ci][xi])
+                if variant == "minimal":
+                    for f in specs[ci][1]:
+                        if not f[1] and f[2] and f[0] in vals and vals[f[0]] == (f[3][0] if f[3] else 0):
+                            del vals[f[0]]
+                keys = sorted(vals.keys())
                 if got is None:
                     # structuring raised: allowed ("refuses instead of guessing"), but the model must agree
                     obs = "None"
@@ -215,7 +231,7 @@ def check_c12(v: Verdict, t1_summary, n_unions, hash_seeds):
                     f"if N.eqb k {cN(intern(kk))} then Some {cN(intern(('v', vv)))} else" for kk, vv in vals.items() if not isinstance(vv, (dict, list))) + " None)"
                 cases.append("ropt_eqb (resolve 6 (fun l => l) %s true %s %s %s) %s" % (
                     c_bool(skip), classes_coq, c_list(cN(intern(kk)) for kk in keys), value_of, obs))
-                meta.append({**desc, "check": "resolve", "instance_of": f"D{ci}", "payload": vals, "observed": got})
+                meta.append({**desc, "check": "resolve", "instance_of": f"D{ci}", "payload": vals, "payload_variant": variant, "observed": got})
         if len(set(created_by_order.values())) > 1:
             hist["f23_hits"] += 1
             v.finding("F23", "success of automatic disambiguation depends on the order of the union's members",
